@@ -81,6 +81,19 @@ func VerifC15Failures() {
 			nd.Reach("batch-under-internal-failure")
 			nd.Assert(err == nil, "C15-batch-under-internal-failure-reports-unprocessed")
 			nd.Assert(len(unprocessed[vTbl]) == len(reqs), "C15-batch-every-request-unprocessed")
+			if len(unprocessed[vTbl]) == len(reqs) {
+				// never dropped: what comes back is the request that was sent, so that a retry applies it
+				puts, dels := 0, 0
+				for _, u := range unprocessed[vTbl] {
+					if u.PutRequest != nil && u.DeleteRequest == nil && vSameItem(u.PutRequest.Item, vItem{"p": vS("n"), "v": vS(x)}) {
+						puts++
+					}
+					if u.DeleteRequest != nil && u.PutRequest == nil && vSameItem(u.DeleteRequest.Key, vItem{"p": vS("k")}) {
+						dels++
+					}
+				}
+				nd.Assert(puts == 1 && dels == 1, "C15-batch-unprocessed-requests-are-the-originals")
+			}
 		} else {
 			nd.Assert(vIsConfigured(err, internal), "C15-data-call-returns-configured-error")
 		}
